@@ -17,7 +17,7 @@ from rv.gen import fields, lastext
 
 ID = "C09"
 LEVEL = "exploration"
-TRANSFORMS = ["noise_header", "noise_data", "pad_lines", "crlf", "no_final_newline", "rewrap", "redelimit", "pad_fields"]
+TRANSFORMS = ["noise_header", "noise_data", "pad_lines", "crlf", "no_final_newline", "rewrap", "redelimit", "pad_fields", "noise_burst"]
 RULE = ("bases: generated files (conformant tagged headers, numeric data, WRAP NO/YES, DLM SPACE/TAB/COMMA, ~A last or followed by "
         "other sections) and every readable example file; transformations, composed at random sites over the whole file: blank/# "
         "lines inserted in ~V/~W/~C/~P/custom and data sections (never in ~O), blanks/tabs around every line (titles included) and, "
@@ -30,7 +30,7 @@ ASSUMPTIONS = [
     "noise lines are inserted inside sections (after their title), not before the first section and not inside ~Other, whose lines are content",
 ]
 REQUIRED = ["pairs_compared", "t_noise_header", "t_noise_data", "t_pad_lines", "t_crlf", "t_no_final_newline", "t_rewrap", "t_redelimit",
-            "t_pad_fields", "rewrap_width_divides", "rewrap_width_not_divides", "corpus_pairs", "generated_pairs", "engine_normal_pairs"]
+            "t_pad_fields", "t_noise_burst", "rewrap_width_divides", "rewrap_width_not_divides", "corpus_pairs", "generated_pairs", "engine_normal_pairs"]
 SOFT_DEADLINE = {"quick": 100, "thorough": 1500}
 LEVEL_TEXT = "Metamorphic exploration: equality of two observed reads under composed presentation-only transformations."
 LEVEL_NOTE = "Equality of two executions; trusts the transformations to be presentation-only (they act on whitespace, line ends, comment lines, wrapping and the declared delimiter only)."
@@ -60,6 +60,10 @@ def grid(tier):
                 k += 1
                 yield {"base": "gen", "seed": k, "wrap": wrap, "ts": [t], "dlm": "SPACE"}
     for dlm in ("SPACE", "TAB", "COMMA"):
+        for rep in range(4):
+            k += 1
+            yield {"base": "gen", "seed": k, "wrap": False, "ts": ["noise_burst"], "dlm": dlm}
+    for dlm in ("SPACE", "TAB", "COMMA"):
         for pad in (False, True):
             for rep in range(4):
                 k += 1
@@ -82,6 +86,8 @@ def random_case(rng, tier):
     ts = rng.sample(TRANSFORMS, rng.randint(1, 4))
     if rng.random() < 0.45:
         return {"base": rng.choice(corpus()), "seed": rng.randrange(10 ** 9), "ts": [t for t in ts if t not in ("redelimit", "pad_fields")] or ["noise_data"]}
+    if "noise_burst" in ts and rng.random() < 0.6:
+        return {"base": "gen", "seed": rng.randrange(10 ** 9), "wrap": False, "ts": ts, "dlm": rng.choice(["COMMA", "TAB", "SPACE"])}
     wrap = rng.random() < 0.4
     return {"base": "gen", "seed": rng.randrange(10 ** 9), "wrap": wrap, "ts": ts, "dlm": "SPACE" if wrap else rng.choice(["SPACE", "SPACE", "TAB", "COMMA"])}
 
@@ -172,6 +178,17 @@ def t_noise(rng, lines, which):
     return lines
 
 
+def t_burst(rng, lines):
+    """20..45 consecutive blank/comment lines at the top (or somewhere inside) of a data or header section."""
+    secs = [s for s in section_map(lines) if s[0] in ("A", "H")]
+    if not secs:
+        return lines
+    kind, i, end = rng.choice([s for s in secs if s[0] == "A"] or secs) if rng.random() < 0.7 else rng.choice(secs)
+    pos = i + 1 if rng.random() < 0.7 else rng.randint(i + 1, end)
+    burst = [rng.choice(["", "# comment", "   ", "#"]) for _ in range(rng.randint(20, 45))]
+    return lines[:pos] + burst + lines[pos:]
+
+
 def t_pad_lines(rng, lines):
     out = []
     for ln in lines:
@@ -230,6 +247,8 @@ def run_case(case, ctx):
             lines = t_noise(rng, lines, "H")
         if "noise_data" in ts:
             lines = t_noise(rng, lines, "A")
+        if "noise_burst" in ts:
+            lines = t_burst(rng, lines)
         if "pad_lines" in ts:
             lines = t_pad_lines(rng, lines)
         text = eol.join(lines)
@@ -257,6 +276,9 @@ def run_case(case, ctx):
         if "noise_data" in ts:
             lines = t_noise(rng, lines, "A")
             applied.append("noise_data")
+        if "noise_burst" in ts:
+            lines = t_burst(rng, lines)
+            applied.append("noise_burst")
         if "pad_lines" in ts:
             lines = t_pad_lines(rng, lines)
             applied.append("pad_lines")
